@@ -12,6 +12,28 @@ BOM = b"\xef\xbb\xbf"
 REPL = b'\\"u[{,:-e.\x00\xff]}0t/'
 
 
+def net_depth(opener):
+    """nesting levels that stay open after one repetition of the opener"""
+    d = 0
+    for c in opener:
+        if c in b"[{":
+            d += 1
+        elif c in b"]}":
+            d -= 1
+    return d
+
+
+def closer_of(opener):
+    """closes what one repetition of the opener leaves open"""
+    stack = []
+    for c in opener:
+        if c in b"[{":
+            stack.append(b"]" if c == 0x5B else b"}")
+        elif c in b"]}":
+            stack.pop()
+    return b"".join(reversed(stack))
+
+
 class C01(Prop):
     ID = "C01"
     RULE = ("(a) libFuzzer target fz_parse: byte 0 selects entry point/flags/placement, rest is the payload, placed in an "
@@ -24,7 +46,7 @@ class C01(Prop):
             "distinct = by input hash")
     ASSUMPTIONS = ["this x86-64 glibc build only (strtod/locale of other platforms not explored)",
                    "termination: libFuzzer -timeout=10 on inputs <= 4 KiB, Hypothesis cases run to completion"]
-    REQUIRED_CLASSES = ["sweep_text", "deep_shape", "long_number_run"]
+    REQUIRED_CLASSES = ["sweep_text", "deep_shape", "long_number_run", "wide_shape"]
 
     def budget(self, tier):
         return {"workers": 8, "examples": 60 if tier == "quick" else 2500}
@@ -44,7 +66,7 @@ class C01(Prop):
         })
         deep = st.fixed_dictionaries({
             "kind": st.just("deep"),
-            "open": st.sampled_from(["[", '{"a":', '[{"a":', ' [ ', '{"a":[']),
+            "open": st.sampled_from(["[", '{"a":', '[{"a":', ' [ ', '{"a":[', "[[],", '{"e":{},"a":', "[{},[],", '{"e":[],"a":[', "[1,"]),
             "rel": st.sampled_from([-1, 0, 1, 2, 99000, 999000]),
             "closed": st.booleans(),
             "entry": st.integers(0, 3),
@@ -56,9 +78,45 @@ class C01(Prop):
             "run": st.sampled_from([60, 61, 62, 63, 64, 65, 66, 70, 127, 128, 129, 200]),
             "chars": st.sampled_from([b"1", b"0", b"9", b"12345678.9", b"1e+", b"-", b".", b"e", b"1.5E-3"]),
         })
-        return st.one_of(sweep, sweep, sweep, sweep, sweep, sweep, deep, longnum)
+        wide = st.fixed_dictionaries({
+            "kind": st.just("wide"),
+            "element": st.sampled_from([b"0", b"[]", b'{"a":1}', b'"s"', b"null"]),
+            "count": st.sampled_from([150000, 400000, 1000000]),
+            "how": st.sampled_from(["complete", "truncated", "bad_tail", "object"]),
+            "entry": st.integers(0, 3),
+        })
+        return st.one_of(sweep, sweep, sweep, sweep, sweep, sweep, sweep, sweep, sweep, sweep, sweep, sweep, deep, deep, longnum, longnum, wide)
 
     def run_case(self, lib, case, stats):
+        if case["kind"] == "wide":
+            # very wide, shallow containers: no recursion over siblings may happen anywhere (parse, fail path, print, delete)
+            el, cnt, how = case["element"], case["count"], case["how"]
+            if how == "object":
+                body = b",".join(b'"k%d":' % (i % 10) + el for i in range(cnt))
+                text = b"{" + body + b"}"
+            else:
+                text = b"[" + b",".join([el] * cnt)
+                text += b"]" if how == "complete" else (b"" if how == "truncated" else b",}")
+            entry = case["entry"]
+            data = text + (b"\x00" if entry < 2 else b"")
+            live = lib.ledger_live()
+            po = lib.parse(entry, data, 1, 0, 1)
+            stats.inner += 1
+            stats.cls("wide_shape")
+            stats.nontriv(["wide", el, cnt, how, entry], {"element": el, "count": cnt, "how": how})
+            if po.tree:
+                if lib.cJSON_GetArraySize(po.tree) != cnt:
+                    lib.cJSON_Delete(po.tree)
+                    raise Violation("wide container parsed to %d children, text has %d" % (lib.cJSON_GetArraySize(po.tree), cnt), key="wide-count")
+                t = lib.take_text(lib.cJSON_PrintUnformatted(po.tree))
+                lib.cJSON_Delete(po.tree)
+                if t is None:
+                    raise Violation("wide tree cannot be printed", key="print")
+            elif how in ("complete", "object"):
+                raise Violation("valid wide document rejected", key="wide-rejected")
+            if lib.ledger_live() != live:
+                raise Violation("allocations left behind after a wide document", key="leak")
+            return
         if case["kind"] == "longnum":
             # runs of number characters around the 63-byte copy limit, ending exactly at the end of the buffer
             run = (case["chars"] * 256)[:case["run"]]
@@ -93,15 +151,14 @@ class C01(Prop):
             text = opener * depth
             if case["closed"]:
                 text += b"1"
-                closer = b"".join({b"[": b"]", b"{": b"}"}.get(bytes([c]), b"") for c in reversed(opener))
-                text += closer * depth
+                text += closer_of(opener) * depth
             entry = case["entry"]
             data = text + (b"\x00" if entry < 2 or (case["flags"] & 2) else b"")
             live = lib.ledger_live()
             po = lib.parse(entry, data, 0, case["flags"] & 1, 1)
             stats.inner += 1
             stats.cls("deep_shape")
-            per_open = opener.count(b"[") + opener.count(b"{")
+            per_open = net_depth(opener)
             real_depth = depth * per_open
             stats.nontriv(["deep", case["open"], depth, case["closed"], entry], {"opener": case["open"], "repeat": depth, "closed": case["closed"]})
             if not po.input_intact:
